@@ -919,6 +919,9 @@ class C04(Prop):
                     if conf.startswith("eh") and k % 3:      # (with a handler the trace is not printed: a third of the combinations)
                         continue
                     B.append(self.mk("b-%s-%s-%s" % (conf, argkind, name), root, conf=conf, argkind=argkind, **kw))
+        # callbacks whose work adds up to more than the budget: the expiry comes inside one of them
+        B.append(self.mk("b-cb-overbudget-map", Q(Bk(40, W(60)), W(5)), cost=2000))
+        B.append(self.mk("b-cb-overbudget-filter", C(Bk(60, W(25, 1), 1)), cost=2000))
         B.append(self.mk("b-cb-c-spin", Bk(3, C(C(S)))))
         B.append(self.mk("b-c-cb-spin", C(Bk(2, S, 1))))
         B.append(self.mk("b-c-call-c-spin", C(F(2, C(F(1, S))))))
@@ -993,6 +996,8 @@ class C04(Prop):
                                   "keys 50", "keys 51", "values 80", "filter_mapping 80 30", "filter_mapping 80 0", "map_mapping 80", "map_mapping 81", "allocate_mapping 1000000", "allocate_mapping -1"]))
         B.append(self.sizes_case("b-sz-wide", {"array": 70000, "buffer": 200000, "string": 100000},
                                  ["allocate 65535", "allocate_buffer 65535", "join 60000 30000", "sprintf 30000 30000", "sprintf 60000 40000"]))
+        B.append(self.sizes_case("b-sz-wide-string", {"string": 65535, "array": 70000},
+                                 ["join 65535 1", "join 65000 535", "join_eq 40000 25536", "join_self 32768 1", "repeat 2 32768", "implode 2 32768 0"]))
         B.append(self.sizes_case("b-sz-sprintf", {"string": 200}, ["sprintf 100 100", "sprintf 100 101", "sprintf 200 100", "sprintf 1 1"]))
         # round 4: mapping * mapping (repaired: the 16-bit `deleted` counter), save / restore_variable, regexp, reg_assoc
         B.append(self.sizes_case("b-sz-compose-wide", {"mapping": 70000, "array": 80000},
